@@ -67,6 +67,25 @@ Theorem C20_wellformed_urilist :
 Proof. exact wellformed_urilist_lemma. Qed.
 Print Assumptions C20_wellformed_urilist.
 
+(* T2 for what URIs look like: lines of printable ASCII, not starting with '#'.  No
+   decoding or stripping hypotheses are left, and for the URI list the detector
+   hypotheses reduce to "expat finds no root element in the sniffed prefixes". *)
+Theorem C20_wellformed_m3u_ascii :
+  forall fx o (ls : list bytes),
+    Forall ascii_line ls -> parse fx o (render_m3u ls) = Ok (map Some ls).
+Proof. exact wellformed_m3u_ascii_lemma. Qed.
+Print Assumptions C20_wellformed_m3u_ascii.
+
+Theorem C20_wellformed_urilist_ascii :
+  forall fx o (l : bytes) (ls : list bytes),
+    Forall ascii_line (l :: ls) ->
+    match l with c :: _ => ascii_alpha c = true | [] => False end ->
+    Forall (fun b => check_uri_ok o b = true) (l :: ls) ->
+    o_head50 o = HeadParseError -> o_head150 o = HeadParseError ->
+    parse fx o (render_urilist (l :: ls)) = Ok (map Some (l :: ls)).
+Proof. exact wellformed_urilist_ascii_lemma. Qed.
+Print Assumptions C20_wellformed_urilist_ascii.
+
 (* T2, PLS over the abstract configparser result *)
 Theorem C20_wellformed_pls :
   forall o data name count_text (files : list str),
